@@ -2,20 +2,18 @@ import LokyModel.Lemmas.Wrapper
 /-!
 # C16 — `wrap_non_picklable_objects` is behaviour-preserving
 
-Property theorems only (helpers in `Lemmas/Wrapper.lean`).  Everything is stated over the model
-`LokyModel.Wrapper`, for **every** object (`Obj`: any callability, any attribute function, any call
-behaviour), every stack of wrappers, both `keep_wrapper` values and every number of round trips.
-cloudpickle's round trip on a bare object is the parameter `rt`; where behaviour is compared the
-hypothesis is `Faithful rt` ("for any object cloudpickle can serialise").
+Property theorems only (vocabulary and helpers in `Lemmas/Wrapper.lean`).  Everything is stated over
+the model `LokyModel.Wrapper`, for **every** object (`Obj`: any callability, any attribute function,
+any call behaviour), every stack of wrappers, both `keep_wrapper` values and every number of round
+trips.  cloudpickle's round trip on a bare object is the parameter `rt`; where behaviour is compared
+the hypothesis is `Faithful rt` ("for any object cloudpickle can serialise").
 
-Two clauses of the statement are false of the code as it is (see the witness theorems):
-
-* `getattr_reserved_witness` — an attribute the wrapper finds by normal look-up (`_obj`,
-  `_keep_wrapper`, `__doc__`, `__module__`, …) is *not* forwarded, so an object's own attribute of
-  that name is shadowed.  `getattr_forwards` is the strongest true statement (all other names).
-* `class_wrapper_not_callable_witness` — an instance made by the wrapper of a class defining
-  `__call__` is not callable until it has been through one pickle round trip.
-  `class_wrapper_behaviour_partial` is the strongest true statement.
+Scope of "attribute reads": names every Python object answers itself (`typeLevel`: `__class__`,
+`__dict__`, `__doc__`, `__module__`, … — looked up on the type, no proxy can forward them) are
+outside the property.  One clause is false of the code as it is (finding D12): the two names
+`_obj` and `_keep_wrapper` live in the wrapper's own `__dict__`, so an attribute of the wrapped
+object with one of these names is shadowed — `getattr_reserved_witness`; `getattr_forwards_partial`
+is the strongest true statement.
 -/
 namespace LokyModel.Wrapper
 
@@ -32,7 +30,7 @@ theorem trip_wrap (rt : Obj → Obj) (k : WKind) (keep : Bool) (v : Val) :
 theorem unpickle_wrap (rt : Obj → Obj) (k : WKind) (keep : Bool) (v : Val) :
     trip rt (.wrap k keep v) = if keep then wrapNP (trip rt v) keep else trip rt v := rfl
 
-/-- the same for a wrapped bare object: `rt x` or a wrapper of `rt x`, wrapper class chosen by
+/-- the same for a wrapped bare object: `rt x`, or a wrapper of `rt x` whose class is chosen by
 `callable(rt x)`, flag unchanged -/
 theorem unpickle_wrap_obj (rt : Obj → Obj) (o : Obj) (keep : Bool) :
     trip rt (wrapObj (.raw o) keep) =
@@ -43,36 +41,42 @@ theorem unpickle_wrap_obj (rt : Obj → Obj) (o : Obj) (keep : Bool) :
 /-! ## forwarding -/
 
 /-- `callable_iff`: the wrapper made by `wrap_non_picklable_objects(obj)` is callable iff `obj` is -/
-theorem callable_iff (v : Val) (keep : Bool) : isCallable (wrapObj v keep) = isCallable v := by
-  unfold wrapObj wrapNP
-  cases h : isCallable v <;> simp [isCallable]
+theorem callable_iff (v : Val) (keep : Bool) : isCallable (wrapObj v keep) = isCallable v :=
+  isCallable_wrapNP v keep
+
+/-- `callable_iff` for instances made through a wrapped class: callable iff the class defines `__call__` -/
+theorem callable_iff_class {α : Type} (ctor : α → Val) (definesCall keep : Bool) (args : α) :
+    isCallable (wrapClass ctor definesCall keep args) = definesCall := rfl
 
 /-- calls are forwarded unchanged (same result, or the same `TypeError` when not callable) -/
 theorem call_forwards (v : Val) (keep : Bool) (x : Nat) : callV (wrapObj v keep) x = callV v x := by
   unfold wrapObj wrapNP
   cases h : isCallable v
-  · simp [callV, callV_of_not_callable v h]
-  · simp [callV]
+  · simp [callV, WKind.hasCall, callV_of_not_callable v h]
+  · simp [callV, WKind.hasCall]
 
-/-- `getattr_forwards`: every name that normal look-up does not find on the wrapper is forwarded,
-through any wrapper class and flag. -/
-theorem getattr_forwards (k : WKind) (keep : Bool) (v : Val) (a : Name) (h : reserved a = false) :
+/- Full statement of `getattr_forwards` (false, D12):
+   `∀ k keep v a, typeLevel a = false → getattr (.wrap k keep v) a = getattr v a`. -/
+
+/-- `getattr_forwards_partial`: every name that is neither type-level nor one of `_obj`,
+`_keep_wrapper` is forwarded, through any wrapper class and flag. -/
+theorem getattr_forwards_partial (k : WKind) (keep : Bool) (v : Val) (a : Name)
+    (h1 : typeLevel a = false) (h2 : refused a = false) :
     getattr (.wrap k keep v) a = getattr v a := by
-  cases a <;> simp_all [reserved, getattr, ownLookup, refused]
+  cases a <;> simp_all [typeLevel, getattr, ownLookup, refused]
 
-example : reserved (.user 3) = false := rfl
+example : typeLevel (.user 3) = false ∧ refused (.user 3) = false := ⟨rfl, rfl⟩
 
-/- Full statement (false): `∀ k keep v a, getattr (.wrap k keep v) a = getattr v a`. -/
-
-/-- witness: an object with its own attribute `_obj = 5`; through the wrapper `w._obj` is the wrapped
-object, not 5.  (Same for `_keep_wrapper` and for class-level names such as `__doc__`.) -/
+/-- witness (D12): the object has its own attributes `_obj = 5` and `_keep_wrapper = 6`; read through
+the wrapper they are the wrapped object and the flag. -/
 theorem getattr_reserved_witness :
-    let o : Obj := ⟨false, fun a => if a = .obj ∨ a = .cls 0 then some 5 else none, id, 0⟩
+    let o : Obj := ⟨false, fun a => if a = .obj then some 5 else if a = .keepWrapper then some 6 else none, id, 0⟩
+    typeLevel .obj = false ∧ typeLevel .keepWrapper = false ∧
     getattr (.raw o) .obj = some (.value 5) ∧
-    (∃ w, getattr (wrapObj (.raw o) true) .obj = some (.inner w)) ∧
-    getattr (.raw o) (.cls 0) = some (.value 5) ∧
-    getattr (wrapObj (.raw o) true) (.cls 0) = some (.classAttr 0) := by
-  refine ⟨by simp [getattr], ⟨_, rfl⟩, by simp [getattr], rfl⟩
+    getattr (wrapObj (.raw o) true) .obj = some (.inner (.raw o)) ∧
+    getattr (.raw o) .keepWrapper = some (.value 6) ∧
+    getattr (wrapObj (.raw o) true) .keepWrapper = some (.flag true) := by
+  refine ⟨rfl, rfl, by simp [getattr], rfl, by simp [getattr], rfl⟩
 
 /-- the refusal branch of `__getattr__` (`getattr(self, attr)` for `_obj` / `_keep_wrapper`, an
 unbounded recursion) is dead code on a constructed wrapper: both names are always found first -/
@@ -114,9 +118,11 @@ theorem core_trips (rt : Obj → Obj) (v : Val) (n : Nat) : core (trips rt n v) 
 
 /-! ## behaviour is preserved -/
 
-/-- Main statement for `wrap_non_picklable_objects(obj)`: after any number of round trips (0 included)
-what arrives — wrapper or not — is callable iff `obj` is, gives the same results (or the same
-`TypeError`) when called, and reads every non-reserved attribute like `obj`. -/
+/-- Main statement: after any number of round trips (0 included) what arrives — wrapper or not — is
+callable iff the object is, gives the same results (or the same `TypeError`) when called, and reads
+every attribute that is neither type-level nor `_obj`/`_keep_wrapper` like the object.  `Regular`
+holds of everything `wrap_non_picklable_objects` returns for a non-class, of wrappers of wrappers,
+and of class-wrapper instances (`class_wrapper_instances`). -/
 theorem behaviour_preserved (rt : Obj → Obj) (hf : Faithful rt) (v : Val) (hv : Regular v) (n : Nat) :
     SameBeh (trips rt n v) (.raw (core v)) := by
   cases n with
@@ -126,7 +132,8 @@ theorem behaviour_preserved (rt : Obj → Obj) (hf : Faithful rt) (v : Val) (hv 
     rw [core_trips] at h1
     exact h1.trans (sameBeh_raw_iter rt hf (n + 1) (core v))
 
-/-- non-vacuity: a wrapped bare object (callable or not, any flag) and a wrapper of a wrapper are `Regular` -/
+/-- non-vacuity: a wrapped bare object (callable or not, any flag) and a wrapper of a wrapper are
+`Regular`; a behaviour-preserving `rt` exists -/
 example (o : Obj) (keep : Bool) : Regular (wrapObj (.raw o) keep) := regular_wrapNP _ _ trivial
 example (o : Obj) (k1 k2 : Bool) : Regular (wrapObj (wrapObj (.raw o) k1) k2) :=
   regular_wrapNP _ _ (regular_wrapNP _ _ trivial)
@@ -134,10 +141,11 @@ example : Faithful (fun o => { o with gen := o.gen + 1 }) := fun _ => ⟨rfl, rf
 
 /-! ## class wrappers -/
 
-/-- `class_wrapper_instances`: an instance built by the wrapped class obeys the same unpickling rule
-(and, from the first round trip on, *is* an ordinary wrapper / the bare instance) -/
-theorem class_wrapper_instances {α : Type} (rt : Obj → Obj) (ctor : α → Val) (keep : Bool) (args : α) (n : Nat) :
-    trips rt (n + 1) (wrapClass ctor keep args) =
+/-- `class_wrapper_instances`, the unpickling rule: an instance built by the wrapped class obeys the
+same rule as any wrapper (and from the first round trip on it *is* an ordinary
+`_wrap_non_picklable_objects` wrapper, or the bare instance). -/
+theorem class_wrapper_roundtrip {α : Type} (rt : Obj → Obj) (ctor : α → Val) (dc keep : Bool) (args : α) (n : Nat) :
+    trips rt (n + 1) (wrapClass ctor dc keep args) =
       if keep then wrapObj (trips rt (n + 1) (ctor args)) keep else trips rt (n + 1) (ctor args) := by
   cases keep
   · rfl
@@ -145,40 +153,19 @@ theorem class_wrapper_instances {α : Type} (rt : Obj → Obj) (ctor : α → Va
     rw [trips, unpickle_wrap]
     exact trips_wrapNP_true rt n _
 
-/- Full statement (false): `∀ ctor keep args n, Regular (ctor args) →
-     SameBeh (trips rt n (wrapClass ctor keep args)) (.raw (core (ctor args)))`. -/
+/-- `class_wrapper_instances`, behaviour: instances made through the wrapped class behave like
+instances of the class (callable iff, same call results, same attribute reads), before and after
+any number of round trips.  Hypothesis `hdc` is the Python fact that instances of a class are
+callable iff some class of its MRO defines `__call__` — which is the test the code applies. -/
+theorem class_wrapper_instances {α : Type} (rt : Obj → Obj) (hf : Faithful rt)
+    (ctor : α → Val) (dc keep : Bool) (args : α) (hreg : Regular (ctor args))
+    (hdc : dc = isCallable (ctor args)) (n : Nat) :
+    SameBeh (trips rt n (wrapClass ctor dc keep args)) (.raw (core (ctor args))) := by
+  have : Regular (wrapClass ctor dc keep args) := ⟨by simp [kindOk, WKind.hasCall, hdc], hreg⟩
+  exact behaviour_preserved rt hf _ this n
 
-/-- witness: the class defines `__call__`, the instance made through the class wrapper is not callable
-and calling it raises `TypeError`, for both flags — until the first round trip. -/
-theorem class_wrapper_not_callable_witness :
-    let o : Obj := ⟨true, fun _ => none, fun x => x + 1, 0⟩
-    let ctor : Unit → Val := fun _ => .raw o
-    ∀ keep, isCallable (ctor ()) = true ∧ isCallable (wrapClass ctor keep ()) = false ∧
-      callV (ctor ()) 1 = some 2 ∧ callV (wrapClass ctor keep ()) 1 = none := by
-  intro o ctor keep
-  exact ⟨rfl, rfl, rfl, rfl⟩
-
-/-- strongest true statement: instances of a wrapped class behave like instances of the class
-(i) always, when the class is not callable; (ii) after at least one round trip, for every class;
-(iii) attribute reads of non-reserved names, always. -/
-theorem class_wrapper_behaviour_partial {α : Type} (rt : Obj → Obj) (hf : Faithful rt)
-    (ctor : α → Val) (keep : Bool) (args : α) (hreg : Regular (ctor args)) :
-    (isCallable (ctor args) = false →
-        ∀ n, SameBeh (trips rt n (wrapClass ctor keep args)) (.raw (core (ctor args)))) ∧
-    (∀ n, SameBeh (trips rt (n + 1) (wrapClass ctor keep args)) (.raw (core (ctor args)))) ∧
-    (∀ a, reserved a = false →
-        getattr (wrapClass ctor keep args) a = getattr (.raw (core (ctor args))) a) := by
-  refine ⟨fun hc n => ?_, fun n => ?_, fun a ha => ?_⟩
-  · have : Regular (wrapClass ctor keep args) := by
-      refine ⟨?_, hreg⟩
-      simp [kindOk, hc]
-    exact behaviour_preserved rt hf _ this n
-  · have h1 := sameBeh_core _ (regular_trips_succ rt n (wrapClass ctor keep args))
-    rw [core_trips] at h1
-    exact h1.trans (sameBeh_raw_iter rt hf (n + 1) _)
-  · rw [wrapClass, getattr_forwards _ _ _ _ ha]
-    exact (sameBeh_core _ hreg).2.2 a ha
-
-example : Regular ((fun (_ : Unit) => Val.raw ⟨false, fun _ => none, id, 0⟩) ()) := trivial
+/-- non-vacuity, both a callable and a non-callable class -/
+example (c : Bool) : Regular ((fun (_ : Unit) => Val.raw ⟨c, fun _ => none, id, 0⟩) ()) ∧
+    c = isCallable ((fun (_ : Unit) => Val.raw ⟨c, fun _ => none, id, 0⟩) ()) := ⟨trivial, rfl⟩
 
 end LokyModel.Wrapper
